@@ -580,83 +580,98 @@ def correspondence(ctx):
     depth_main = ctx.budget(6, 7)
     depth_other = ctx.budget(5, 6)
     lines, impl, meta = [], [], []
+    kinds = {}
+    r = Rng(ctx.seed).fork("c15")
+    n_recheck = ctx.budget(600, 6000)          # per batch
 
     def add(t0, toks, got):
         lines.append("async run %d %s" % (t0, " ".join(toks)))
         impl.append(got)
         meta.append((t0, tuple(toks)))
 
+    def flush(recheck):
+        """pipe what has accumulated through the model, compare, forget (bounds memory in the thorough tier)"""
+        if recheck and lines:
+            # prefix sharing is a harness shortcut: re-run a sample of the leaves from scratch, insist on the same trace
+            for _ in range(n_recheck):
+                i = r.below(len(lines))
+                t0, toks = meta[i]
+                fresh = run_impl(t0, list(toks))
+                c.count("enumerated:recheck-from-scratch")
+                if fresh != impl[i]:
+                    c.disagreements.append(dict(case="%d %s" % (t0, " ".join(toks)), impl=fresh,
+                                                model="(prefix-shared run) " + impl[i],
+                                                note="harness: prefix-shared run differs from a fresh run"))
+        outs = run_driver(lines, exe="drv_async")
+        for (t0, toks), want, got in zip(meta, impl, outs):
+            c.evaluations += 1
+            if got != want:
+                if len(c.disagreements) < 200:
+                    c.disagreements.append(dict(case="%d %s" % (t0, " ".join(toks)), impl=want, model=got))
+                continue
+            has_reply = any(t[0] in "A" or ":R" in t for t in toks)
+            has_query = any(t[0] in "rexvwYZ" for t in toks)
+            if has_query and (has_reply or "TO" in want or " T@" in want):
+                c.signatures.add(hash(want))
+            for tok in want.split(" st ")[0].split(" "):
+                o = tok.split("@")[0].split(":")[0]
+                kinds[o] = kinds.get(o, 0) + 1
+            if "busy[]" not in want:
+                c.count("outcome:with-busy-request")
+            if " raN " not in want:
+                c.count("outcome:reply-accepted")
+            elif has_reply:
+                c.count("outcome:reply-not-accepted")
+            if len(c.samples) < 12 and c.evaluations % 40009 == 7:
+                c.samples.append(dict(case="%d %s" % (t0, " ".join(toks)), outcome=want))
+        del lines[:], impl[:], meta[:]
+
     t_start = _walltime.time()
     n_enum = 0
-    for tau in TIMEOUTS:
-        for variant in ("arrive", "deliver", "arrive-exc", "deliver-exc"):
-            depth = depth_main if variant in ("arrive", "deliver") else depth_other
-            sim = Sim(0)
-            try:
-                head = "X" + tau_tok(tau)
-                o0 = sim.apply(head)
-
-                def emit(seq, obs, st, head=head, o0=o0):
-                    add(0, [head] + seq, " ".join([o0] + obs + [st]))
-                before = len(lines)
-                enum_tree(sim, symbols_for(variant), depth, emit)
-                enum_tree(sim, symbols_rep(variant), 3, emit)
-                n_enum += len(lines) - before
-                c.count("enumerated:%s:depth%d" % (variant, depth), len(lines) - before)
-            finally:
-                sim.close()
-    ctx.log("enumeration: %d sequences on the real code in %.1fs" % (n_enum, _walltime.time() - t_start))
-    # prefix sharing is a harness shortcut: re-run a sample of the leaves from scratch and insist on the same trace
-    r = Rng(ctx.seed).fork("c15")
-    for _ in range(ctx.budget(3000, 30000)):
-        i = r.below(len(lines))
-        t0, toks = meta[i]
-        fresh = run_impl(t0, list(toks))
-        c.count("enumerated:recheck-from-scratch")
-        if fresh != impl[i]:
-            c.disagreements.append(dict(case="%d %s" % (t0, " ".join(toks)), impl=fresh, model="(prefix-shared run) " + impl[i],
-                                        note="harness: prefix-shared run differs from a fresh run"))
-    for _ in range(ctx.budget(20000, 400000)):
-        toks = gen_sequence(r, r.range(1, 14))
-        t0 = r.choice([0, 0, 5, 1000])
-        add(t0, toks, run_impl(t0, toks))
-        c.count("seeded")
-    # whole connections
-    scen = simnet_scenarios()
-    scen_lines, scen_impl = [], []
-    for (kind, tau, pre, k, post, ops) in scen:
-        toks = scenario_tokens(kind, tau, pre, k, post, ops)
-        scen_lines.append("async run 0 " + " ".join(toks))
-        scen_impl.append(run_scenario_simnet(kind, tau, pre, k, post, ops))
-        c.count("simnet:" + kind)
     try:
-        outs = run_driver(lines + scen_lines, exe="drv_async")
+        for tau in TIMEOUTS:
+            for variant in ("arrive", "deliver", "arrive-exc", "deliver-exc"):
+                depth = depth_main if variant in ("arrive", "deliver") else depth_other
+                sim = Sim(0)
+                try:
+                    head = "X" + tau_tok(tau)
+                    o0 = sim.apply(head)
+
+                    def emit(seq, obs, st, head=head, o0=o0):
+                        add(0, [head] + seq, " ".join([o0] + obs + [st]))
+                    before = len(lines)
+                    enum_tree(sim, symbols_for(variant), depth, emit)
+                    enum_tree(sim, symbols_rep(variant), 3, emit)
+                    n_enum += len(lines) - before
+                    c.count("enumerated:%s:depth%d" % (variant, depth), len(lines) - before)
+                finally:
+                    sim.close()
+                if ctx.tier == "thorough":
+                    flush(True)
+            flush(True)
+        ctx.log("enumeration: %d sequences on the real code and the model in %.1fs" % (n_enum, _walltime.time() - t_start))
+        n_seeded = ctx.budget(20000, 400000)
+        for i in range(n_seeded):
+            toks = gen_sequence(r, r.range(1, 14))
+            t0 = r.choice([0, 0, 5, 1000])
+            add(t0, toks, run_impl(t0, toks))
+            c.count("seeded")
+            if len(lines) >= 100000:
+                flush(False)
+        flush(False)
+        # whole connections
+        scen = simnet_scenarios()
+        scen_lines, scen_impl = [], []
+        for (kind, tau, pre, k, post, ops) in scen:
+            toks = scenario_tokens(kind, tau, pre, k, post, ops)
+            scen_lines.append("async run 0 " + " ".join(toks))
+            scen_impl.append(run_scenario_simnet(kind, tau, pre, k, post, ops))
+            c.count("simnet:" + kind)
+        outs = run_driver(scen_lines, exe="drv_async")
     except DriverError as ex:
         c.error = str(ex)
         return c
-    kinds = {}
-    for (t0, toks), want, got in zip(meta, impl, outs):
-        c.evaluations += 1
-        if got != want:
-            if len(c.disagreements) < 200:
-                c.disagreements.append(dict(case="%d %s" % (t0, " ".join(toks)), impl=want, model=got))
-            continue
-        has_reply = any(t[0] in "A" or ":R" in t for t in toks)
-        has_query = any(t[0] in "rexvwYZ" for t in toks)
-        if has_query and (has_reply or "TO" in want or " T@" in want):
-            c.signatures.add(want)
-        for tok in want.split(" st ")[0].split(" "):
-            o = tok.split("@")[0]
-            kinds[o.split(":")[0]] = kinds.get(o.split(":")[0], 0) + 1
-        if "busy[]" not in want:
-            c.count("outcome:with-busy-request")
-        if "ra" in want and " raN " not in want:
-            c.count("outcome:reply-accepted")
-        elif has_reply:
-            c.count("outcome:reply-not-accepted")
-        if len(c.samples) < 12 and c.evaluations % 40009 == 7:
-            c.samples.append(dict(case="%d %s" % (t0, " ".join(toks)), outcome=want))
-    for (sc, line, want, got) in zip(scen, scen_lines, scen_impl, outs[len(lines):]):
+    for (sc, line, want, got) in zip(scen, scen_lines, scen_impl, outs):
         c.evaluations += 1
         kind = sc[0]
         n_sends = 1 if sc[3] is None else 2
@@ -670,7 +685,8 @@ def correspondence(ctx):
     for k, v in kinds.items():
         c.count("observation:" + k, v)
     c.extra["exhaustive_orders"] = ("all orders of the 9-symbol multiset of length %d (reply dispatched now / put into the "
-                                    "channel now, value) / %d (the same with an exception), 5 timeouts: %d sequences" % (depth_main, depth_other, n_enum))
+                                    "channel now, value) / %d (the same with an exception), 5 timeouts: %d sequences"
+                                    % (depth_main, depth_other, n_enum))
     c.exhaustive = False
     return c
 
